@@ -24,6 +24,7 @@ def run(ctx, chk):
     chk.rule("C16.R2", "source locking is balanced around macro expansion", floor=1)
     chk.rule("C16.R3", "driver messages use the map entry of the executing index unmodified", floor=6)
     chk.rule("C16.R4", "syntax diagnostics use the error's own position", floor=1)
+    chk.rule("C16.R5", "while the source is locked (macro expansion) the recorded source position cannot change", floor=2)
     for nt_data in GA.g["nonterminals"]:
         nt = nt_data["name"]
         for k, p in enumerate(nt_data["productions"]):
@@ -103,6 +104,7 @@ def run(ctx, chk):
                         chk.violation("C16.R2", label, "set_source-position", f"{label}: set_source is not given the start of the macro use", where)
                     else:
                         chk.ok("C16.R2", f"{label}#path{n}", "set_source(@L0); lock; parse; unlock")
+    lock_discipline(ctx, chk)
     # R3 driver
     drv = ctx.program.by_name.get(("bin", "driver::driver::CMDDriver::run"))
     if drv is None:
@@ -140,3 +142,55 @@ def run(ctx, chk):
                     chk.ok("C16.R4", f"preprocess@bb{bi}", "error start passed unmodified")
         if n == 0:
             chk.violation("C16.R4", "preprocess", "no-line-lookup", "preprocess() no longer maps the error position to a line", pp["span"])
+
+
+def lock_discipline(ctx, chk):
+    """C16.R5: every assignment to SourceMapper.source_last outside construction/reset is control dependent on a test of
+    the lock counter: during a (nested) macro expansion all instructions keep the position of the outermost macro use."""
+    from cfgtools import Defs, origin
+    P = ctx.program
+    n = 0
+    for (which, name), fn in P.by_name.items():
+        if which != "lib" or "::SourceMapper::" not in name:
+            continue
+        short = name.split("::")[-1]
+        if short in ("clear", "new", "default", "get_source_map"):
+            continue
+        cfg = M.CFG(fn)
+        defs = Defs(fn)
+        cd = cfg.control_deps
+        for bi, bb in enumerate(fn["blocks"]):
+            if bb.get("cleanup") or bi not in cfg.reach:
+                continue
+            for s_ in bb["stmts"]:
+                if s_[0] != "assign":
+                    continue
+                fl = [e[2] for e in s_[1]["p"] if isinstance(e, list) and e[0] == "f"]
+                if fl[-1:] != ["source_last"]:
+                    continue
+                n += 1
+                guarded = False
+                for a in cd.get(bi, ()):
+                    t = M.term(fn["blocks"][a])
+                    if t[0] != "switch":
+                        continue
+                    o = origin(defs, t[1])
+                    pl = None
+                    if o[0] == "place":
+                        pl = o[1]
+                    elif o[0] == "rvalue" and o[1][0] == "bin":
+                        for side in (o[1][2], o[1][3]):
+                            so = origin(defs, side)
+                            if so[0] == "place":
+                                pl = so[1]
+                    if pl is not None and [e[2] for e in pl["p"] if isinstance(e, list) and e[0] == "f"][-1:] == ["lock"]:
+                        guarded = True
+                where = f"{fn['span'].rsplit(':', 2)[0]}:{s_[3]}"
+                if guarded:
+                    chk.ok("C16.R5", f"SourceMapper::{short}@{s_[3]}", "source_last is written only under a test of the lock counter")
+                else:
+                    chk.violation("C16.R5", f"SourceMapper::{short}", "source-position-written-while-locked",
+                                  f"SourceMapper::{short} assigns source_last without testing the lock: inside a nested macro expansion the position becomes an offset "
+                                  f"into the expanded text and every later instruction of the expansion is attributed to an unrelated line", where)
+    if n == 0:
+        chk.undecided_("C16.R5", "SourceMapper", "no assignment to source_last found")
